@@ -169,6 +169,17 @@ def rule_s3(ctx):
                 and not v.generators[0].ifs and isinstance(v.elt, ast.Call):
             if core.resolve_name(A.dotted(v.elt.func) or '') == 'pickle.dumps':
                 return True
+            # the element is computed from pickle.dumps(<loop variable>, ...) (an inlined helper)
+            tv = set(A.name_targets(v.generators[0].target))
+            if any(isinstance(x, ast.Call) and core.resolve_name(A.dotted(x.func) or '') == 'pickle.dumps' and x.args
+                   and isinstance(x.args[0], ast.Name) and x.args[0].id in tv for x in ast.walk(v.elt)):
+                return True
+            if isinstance(v.elt.func, ast.Attribute) and isinstance(v.elt.func.value, ast.Name):
+                # a (static) method of the class itself
+                hm = c.resolve(v.elt.func.attr)
+                if hm is not None and hm.is_function:
+                    return any(isinstance(x, ast.Call) and core.resolve_name(A.dotted(x.func) or '') == 'pickle.dumps'
+                               for x in ast.walk(hm.node))
             if isinstance(v.elt.func, ast.Name):
                 helper = [h for h in init.body if isinstance(h, A.FUNC_TYPES) and h.name == v.elt.func.id]
                 return bool(helper) and any(isinstance(x, ast.Call) and core.resolve_name(A.dotted(x.func) or '') == 'pickle.dumps'
